@@ -5,6 +5,7 @@ Property theorems only.
 import DW.Generated.Tables
 import DW.Model.Dump
 import DW.Lemmas.Dump
+import DW.Lemmas.DumpSafe
 
 namespace DW.Props.C03
 open DW
@@ -49,50 +50,25 @@ theorem C03_hooks_present :
             "default_dump_with"],
       (Generated.dumpHookEffects.map (·.1)).contains h = true := by decide
 
-mutual
-/-- JSON-safety of a dump result: no node the standard encoder would refuse. -/
-def jsonSafe : DVal → Bool
-  | .bad _ => false
-  | .list xs => jsonSafeList xs
-  | .tuple xs => jsonSafeList xs
-  | .ntuple _ xs => jsonSafeList xs
-  | .dict _ kvs => jsonSafePairs kvs
-  | _ => true
-def jsonSafeList : List DVal → Bool
-  | [] => true
-  | x :: xs => jsonSafe x && jsonSafeList xs
-def jsonSafePairs : List (DVal × DVal) → Bool
-  | [] => true
-  | (k, v) :: r => jsonSafe k && jsonSafe v && jsonSafePairs r
-end
-
-/-- scalars of the value universe (no containers, no instances) -/
-def _root_.DW.PyVal.isScalar : PyVal → Bool
-  | .seq _ _ => false | .tuple _ => false | .map _ _ => false | .ntuple _ _ _ => false | .inst _ _ => false
-  | _ => true
-
 /-- Every scalar value of the universe (including instances of proper subclasses of the stdlib value
 types) dumps to a JSON-safe scalar, in ISO and in TIMESTAMP mode, whenever the dump does not raise. -/
 theorem C03_scalar_json_safe (std : Std) (ts : Bool) (v : PyVal) (d : DVal) (hv : v.isScalar = true)
-    (h : dumpScalar std ts v = .ok d) : jsonSafe d = true := by
-  cases v with
-  | none => simp [dumpScalar, pure, Except.pure] at h; subst h; rfl
-  | bool b => simp [dumpScalar, pure, Except.pure] at h; subst h; rfl
-  | int i => simp [dumpScalar, pure, Except.pure] at h; subst h; rfl
-  | float f => simp [dumpScalar, pure, Except.pure] at h; subst h; rfl
-  | str s => simp [dumpScalar, pure, Except.pure] at h; subst h; rfl
-  | bytes m b => simp [dumpScalar, pure, Except.pure] at h; subst h; rfl
-  | leaf k sub t =>
-    cases k <;> cases ts <;> simp [dumpScalar, pure, Except.pure] at h <;>
-      first
-        | (subst h; rfl)
-        | (split at h <;> first | (cases h; rfl) | (simp at h))
-  | timedelta us => simp [dumpScalar, pure, Except.pure] at h; subst h; rfl
-  | enum c m val => simp [dumpScalar, pure, Except.pure] at h; subst h; cases val <;> rfl
-  | seq k xs => simp [PyVal.isScalar] at hv
-  | tuple xs => simp [PyVal.isScalar] at hv
-  | map k kvs => simp [PyVal.isScalar] at hv
-  | ntuple c ns xs => simp [PyVal.isScalar] at hv
-  | inst ci fs => simp [PyVal.isScalar] at hv
+    (h : dumpScalar std ts v = .ok d) : jsonSafe d = true :=
+  scalar_json_safe std ts v d hv h
+
+/-- **C03 (JSON-safe, every value).** Whatever the value — any nesting of dataclasses, containers, named tuples and
+scalars incl. subclasses of the stdlib value types, any Meta, any travelling config, ISO or TIMESTAMP mode — a dump that
+does not raise contains no node the standard encoder would refuse. `wellKeyed` only asks that the keys of *catch-all*
+dictionaries are scalars (what `json.loads` produces); by induction on the size of the value, over all five mutually
+recursive dump functions. (`jsonSafe` does not restrict the keys of user dictionaries: `dict[tuple, …]` is outside it.) -/
+theorem C03_json_safe (std : Std) (ts : Bool) (cfg : Option MetaCfg) (v : PyVal) (d : DVal)
+    (hw : wellKeyed v = true) (h : dumpV std ts cfg v = .ok d) : jsonSafe d = true :=
+  dumpV_safe std cfg ts v d hw h
+
+/-- the hypothesis is satisfiable by a nested instance with a catch-all field, and the conclusion is not vacuous -/
+theorem C03_json_safe_example :
+    wellKeyed (.inst { name := "K".toList, fields := [{ name := "a".toList }, { name := "rest".toList, isCatchAll := true }] }
+      [("a".toList, .seq .list [.int 1, .none]), ("rest".toList, .map .dict [(.str "x".toList, .tuple [.bool true])])]) = true := by
+  decide
 
 end DW.Props.C03
